@@ -255,12 +255,8 @@ func (t *ErrTrack) propagate() {
 					}
 					// no other writer of the slot between the store and the load
 					w := func(x ssa.Instruction) bool { return t.isSlotWriter(x, s) }
-					found, hit, _ := PathQuery{Start: s.from, Target: w, Barrier: isLd, EdgeOK: t.EdgeOK}.Find(t.fn)
-					if found {
-						again, _, _ := PathQuery{Start: hit, Target: isLd, EdgeOK: t.EdgeOK}.Find(t.fn)
-						if again {
-							continue
-						}
+					if interveningWriter(t.fn, s.from, ld, w, t.EdgeOK) {
+						continue
 					}
 					t.Carriers[ld] = true
 					changed = true
